@@ -1,0 +1,108 @@
+//! Verification hooks (feature `verif-hooks`, off by default).
+//!
+//! Purely observational: a `Process` wrapper that counts what goes through
+//! each pipeline stage, and a place to leave the regex cache statistics.
+//! Nothing here changes what jawk computes.
+use std::cell::RefCell;
+use std::collections::BTreeMap;
+
+use crate::processor::{Context, Process, ProcessDesision, Result as ProcessResult, Titles};
+
+/// Per stage counters: starts, processes, completes, breaks returned, errors returned.
+#[derive(Default, Clone, Debug)]
+pub struct StageCounters {
+    pub starts: u64,
+    pub processes: u64,
+    pub completes: u64,
+    pub breaks: u64,
+    pub errors: u64,
+    pub process_after_break: u64,
+    pub process_before_start: u64,
+}
+
+#[derive(Default, Clone, Debug)]
+pub struct Observed {
+    pub stages: BTreeMap<String, StageCounters>,
+    pub regex_cache: Option<(u64, u64, usize)>,
+}
+
+thread_local! {
+    static OBSERVED: RefCell<Observed> = RefCell::new(Observed::default());
+}
+
+/// Take (and reset) everything observed on this thread since the last call.
+pub fn take_observed() -> Observed {
+    OBSERVED.with(|o| std::mem::take(&mut *o.borrow_mut()))
+}
+
+pub(crate) fn record_regex_cache(hits: u64, misses: u64, capacity: usize) {
+    OBSERVED.with(|o| o.borrow_mut().regex_cache = Some((hits, misses, capacity)));
+}
+
+struct Traced {
+    name: String,
+    started: bool,
+    broke: bool,
+    inner: Box<dyn Process>,
+}
+
+impl Traced {
+    fn count<F: FnOnce(&mut StageCounters)>(&self, f: F) {
+        OBSERVED.with(|o| f(o.borrow_mut().stages.entry(self.name.clone()).or_default()));
+    }
+}
+
+pub(crate) fn wrap(name: &str, inner: Box<dyn Process>) -> Box<dyn Process> {
+    Box::new(Traced {
+        name: name.to_string(),
+        started: false,
+        broke: false,
+        inner,
+    })
+}
+
+impl Process for Traced {
+    fn start(&mut self, titles_so_far: Titles) -> ProcessResult<()> {
+        self.started = true;
+        let r = self.inner.start(titles_so_far);
+        self.count(|c| {
+            c.starts += 1;
+            if r.is_err() {
+                c.errors += 1;
+            }
+        });
+        r
+    }
+    fn process(&mut self, context: Context) -> ProcessResult<ProcessDesision> {
+        let (started, broke) = (self.started, self.broke);
+        let r = self.inner.process(context);
+        if matches!(r, Ok(ProcessDesision::Break)) {
+            self.broke = true;
+        }
+        self.count(|c| {
+            c.processes += 1;
+            if !started {
+                c.process_before_start += 1;
+            }
+            if broke {
+                c.process_after_break += 1;
+            }
+            match &r {
+                Ok(ProcessDesision::Break) => c.breaks += 1,
+                Ok(ProcessDesision::Continue) => {}
+                Err(_) => c.errors += 1,
+            }
+        });
+        r
+    }
+    fn complete(&mut self) -> ProcessResult<()> {
+        let r = self.inner.complete();
+        self.count(|c| {
+            c.completes += 1;
+            if r.is_err() {
+                c.errors += 1;
+            }
+        });
+        r
+    }
+}
